@@ -263,7 +263,7 @@ def replace_namespace(root, old_ns, new_ns):
             # handle tag
             qtag = etree.QName(elem)
             if qtag.namespace == old_ns:
-                elem.tag = etree.QName(new_ns, qtag.localname)
+                elem.tag = etree.QName(new_ns, qtag.localname).text
 
             # handle attributes
             attribs_dict = elem.attrib
